@@ -73,8 +73,9 @@ class Agg:
                     cur["alts"].append((v["what"], jsonable(v["case"])))
                 # alternatives: a few more examples of the same fingerprint; those that carry their own history (a first run in the same
                 # process) are kept preferably - they reproduce in a fresh process when the smallest example only failed because of what ran before it
-                hist = [a for a in cur["alts"] if '"prelude": true' in json.dumps(a[1])]
-                cur["alts"] = (hist[:3] + [a for a in cur["alts"] if a not in hist])[:6]
+                ab = [a for a in cur["alts"] if '"prelude": "aborted"' in json.dumps(a[1])]
+                tr = [a for a in cur["alts"] if '"prelude": true' in json.dumps(a[1])]
+                cur["alts"] = (ab[:2] + tr[:2] + [a for a in cur["alts"] if a not in ab and a not in tr])[:6]
 
 
 def viol(fp, what, case):
